@@ -3,16 +3,24 @@
 // gemmill/plugin.AdminOp (DESIGN §5 C14):
 //
 //	part 1 "tally"    every signature list of length ≤ 4 (quick) / ≤ 5 (thorough)
-//	                  over 12–13 entry kinds, for 4 validator sets, offered to
-//	                  AdminOp.ExecTX;
-//	part 2 "sequence" every sequence of ≤ 3 administrative requests (all ways of
-//	                  splitting it into blocks) executed as signed ethereum
+//	                  over 11–13 entry kinds, for 4 validator power vectors,
+//	                  offered to AdminOp.ExecTX (tally.go);
+//	part 2 "sequence" every sequence of ≤ 3 administrative requests over a request
+//	                  alphabet, split into blocks, executed as signed ethereum
 //	                  transactions through the real state transition, governance
 //	                  contract / precompile 0xfe, Angine.ExecAdminTx, AdminOp,
-//	                  State.ApplyBlock on two lock-step replicas and late replicas.
+//	                  State.ApplyBlock on two lock-step replicas and on late
+//	                  replicas, against a reference model (seq.go, replica.go);
+//	part 3 "query"    the same requests sent as read-only contract queries to one
+//	                  of two replicas running the real EVMApp (query.go).
 //
-// Part 2 runs in worker subprocesses (this binary re-executed): the AdminOP
-// precompile and its callback are process-global in the repository.
+// Parts 2 and 3 run in worker subprocesses (this binary re-executed with
+// "seqworker"): the AdminOP precompile (vm.DefaultAdminContract), its callback
+// and the StateDB it remembers are process-global in the repository, so one
+// process can execute only one EVM at a time.
+//
+// props/c14/mutants.sh builds the check against mutated repository files
+// (go build -overlay) and shows that the quick tier exits 1 on each of them.
 package main
 
 import (
@@ -479,6 +487,7 @@ func main() {
 		"request_alphabet":                         names,
 		"outcome_classes_part2":                    w.Classes,
 		"tally_outcome_classes":                    tallyClasses.Len(),
+		"outcome_classes_part1":                    tallyClasses.Map(),
 		"samples":                                  allSamples,
 	}, []string{
 		"ed25519 / secp256k1 unforgeability: a validator 'really signed' iff the harness produced the signature with that key over exactly the request message",
